@@ -198,6 +198,7 @@ def loss_cases(draw, kind, max_n):
 
 
 def check_loss(ctx: Ctx, case):
+    lg._MEMO.clear()     # the memoising calculator starts every case with an empty memory (cases are independent)
     spec, ds = case["loss"], case["data"]
     kind = spec["kind"]
     sub = f"loss_{kind}"
